@@ -26,7 +26,7 @@ def build_cases(seed, n):
     cases = []
     for (s, recs, g) in records_schema_cases(seed, n):
         codec = rnd.choice(["null", "null", "deflate", "bzip2", "xz"])
-        level = rnd.choice([None, None, 1, 9]) if codec == "deflate" else None
+        level = rnd.choice([None, None, 1, 9]) if codec == "deflate" else rnd.choice([None, None, None, -1, 0, 2, 3, 9])
         meta = rnd.choice([None, {}, {"k": "v"}, {"owner": "é", "x": ""}, {"a": "1", "b": "2", "c": "3"},
                            # metadata carried over from another file: its schema / codec entries must not win
                            {"avro.schema": json.dumps({"type": "record", "name": "Stale", "fields": [{"name": "zz", "type": "string"}]}), "k": "v"},
@@ -236,6 +236,21 @@ def run(tier, seed):
                     why = "reader reports a schema with another canonical form"
             except Exception as e:  # noqa
                 why = "reading the written file raised %r" % (e,)
+        # --- the schema object a reader handed out belongs to the caller: edited in place (the usual way to derive the
+        # next version of a schema), it must not show up in a later, independent read of the same bytes
+        if not why and isinstance(rd.writer_schema, dict) and rd.writer_schema.get("type") == "record":
+            try:
+                ws = rd.writer_schema
+                ws["fields"].append({"name": "zz_added_later", "type": "string", "default": "d"})
+                ws["doc"] = "edited"
+                rd3 = fastavro.reader(io.BytesIO(c["data"]))
+                got3 = [to_wire(x) for x in rd3]
+                if [canon(x) for x in got3] != [canon(x) for x in c["nfs"]]:
+                    why = "records read back differ after the schema object returned by an earlier reader of the same bytes was edited"
+                elif to_parsing_canonical_form(rd3.writer_schema) != to_parsing_canonical_form(json.loads(json.dumps(s))):
+                    why = "a second reader of the same bytes reports the schema as edited by the caller of the first"
+            except Exception as e:  # noqa
+                why = "reading the same bytes again after editing the first reader's schema object raised %r" % (e,)
         # --- sequential read-only input
         if not why:
             ro = ReadOnly(c["data"])
